@@ -147,12 +147,11 @@ class AnsiSetting:
         val_list = []
         for val in self._str.split(ansi_sep):
             val = val.strip()
-            try:
-                val_int = int(val)
-            except ValueError:
-                val_list.append(val)
+            # Only plain decimal digits make an ANSI parameter (int() also accepts signs, "_" and other digits)
+            if val.isascii() and val.isdigit():
+                val_list.append(int(val))
             else:
-                val_list.append(val_int)
+                val_list.append(val)
         return val_list
 
     def get_initial_param(self) -> AnsiParam:
